@@ -102,11 +102,23 @@ class C03(core.Prop):
                 msgs.append(rich_message(rng, kind))
             # the registry also holds a stand-alone oneLight message (same tag as the part of that name)
             msgs.append({"kind": "oneLight", "attrs": {"name": rng.choice(msggen.NAMES)}, "value": rng.choice(msggen.STATES), "children": None})
+        # long child texts (around and beyond 4 KiB), to be spelled with the text on a line of its own as well
+        for n in ([100, 4090, 4097, 5000] if tier == "quick" else [100, 1000, 4000, 4090, 4095, 4096, 4097, 4100, 5000, 9000, 70000]):
+            for kind in ("setTextVector", "newTextVector", "defTextVector", "setBLOBVector"):
+                m = rich_message(rng, kind)
+                child = msggen.GRAMMAR[kind][3]
+                p = msggen.gen_part(rng, child)
+                p["value"] = ("QUJD" * (n // 4 + 1))[:n - n % 4] if child == "oneBLOB" else ("lorem ipsum " * (n // 12 + 1))[:n].strip()
+                m["children"] = [p] + (m["children"] or [])[:1]
+                m["_long"] = True
+                msgs.append(m)
         # the model's own serialisation of every message (implementation must read it back)
         mdocs, err = core.run_model("tostring", [msggen.sx_msg(m) for m in msgs])
         for m, md in zip(msgs, mdocs or [None] * len(msgs)):
             t = xmlgen.msg_tree(m)
             foreign = [xmlgen.document(rng, t, st) for st in xmlgen.STYLES[1:]]
+            if m.pop("_long", False):
+                foreign.append(xmlgen.document(rng, t, {"quote": '"', "selfclose": "space", "padtext": True}))
             cases.append({"type": "msg", "msg": m, "model_doc": md[0] if isinstance(md, list) else None, "foreign": foreign})
         n_xml = 2500 if tier == "quick" else 100000
         for i in range(n_xml):
